@@ -748,6 +748,32 @@ public:
         }
       }
       begin_segment(pk, p, id);
+      // the packet sits in the slot the source buffer handed out last: a
+      // different slot means that two tasks filled this buffer at once (or
+      // that the buffer was filled beyond its capacity)
+      if (b != nullptr) {
+        PhotonBuffer &sb = *(PhotonBuffer *)b;
+        const PhotonPacket *first = &sb[0];
+        const long slot = (long)(&p - first);
+        if (slot < 0 || slot >= (long)PHOTONBUFFER_SIZE ||
+            sb.size() > PHOTONBUFFER_SIZE) {
+          fail("buffer-overflow",
+               sfmt("packet %llu launched into slot %ld of a source buffer "
+                    "with %u slots (buffer size counter %u)",
+                    (unsigned long long)id, slot, (unsigned)PHOTONBUFFER_SIZE,
+                    (unsigned)sb.size()));
+          break;
+        }
+        // (discrete source tasks size their private buffer up front)
+        if (y == 1 && (long)sb.size() != slot + 1) {
+          fail("source-buffer-shared",
+               sfmt("packet %llu launched into slot %ld of a source buffer "
+                    "whose size counter is %u: another task used the buffer "
+                    "at the same time",
+                    (unsigned long long)id, slot, (unsigned)sb.size()));
+          break;
+        }
+      }
       // the packet must start inside the subgrid it is handed to
       {
         const size_t sg = (size_t)x;
